@@ -4,6 +4,7 @@ package main
 // deductive part relies on.  A scan that fails is reported like a failed obligation.
 
 import (
+	"fmt"
 	"go/constant"
 	"regexp"
 	"sort"
@@ -113,4 +114,101 @@ func init() {
 	for _, p := range []string{"C18"} {
 		propScans[p] = append(propScans[p], scanPureLeavesReadOnly)
 	}
+}
+
+// scanBlockWritesThroughTx (C02): in the code reachable from SyncBlock by static calls (and closures), nothing writes through
+// the connection pool (*sql.DB): no Exec/Begin/Prepare on a *sql.DB, and a *sql.DB handed to a function as a query handle
+// only reaches functions whose SQL is read-only.  Together with the frame contracts (ledger writes happen in leaves that take
+// the *sql.Tx) this is the "every write of a block belongs to the one transaction" side condition of the C02 argument.
+func scanBlockWritesThroughTx(eng *Engine) []Result {
+	name := "(*node.Pegnetd).SyncBlock/scan:block_writes_only_through_the_transaction_handle"
+	root := eng.FindFunction("(*" + repoMod + "/node.Pegnetd).SyncBlock")
+	if root == nil {
+		return []Result{{Name: name, Kind: "scan", Status: "missing", Text: "SyncBlock not found"}}
+	}
+	isDB := func(v ssa.Value) bool {
+		return v != nil && strings.HasSuffix(v.Type().String(), "database/sql.DB") && strings.HasPrefix(v.Type().String(), "*")
+	}
+	writesSQL := func(f *ssa.Function) string {
+		bad := ""
+		seen := map[*ssa.Function]bool{}
+		var walk func(f *ssa.Function)
+		walk = func(f *ssa.Function) {
+			if f == nil || seen[f] || len(f.Blocks) == 0 {
+				return
+			}
+			seen[f] = true
+			for _, b := range f.Blocks {
+				for _, ins := range b.Instrs {
+					for _, op := range ins.Operands(nil) {
+						if c, ok := (*op).(*ssa.Const); ok && c.Value != nil && c.Value.Kind() == constant.String && sqlWrite.MatchString(constant.StringVal(c.Value)) {
+							bad = f.Name() + ": " + firstLine(constant.StringVal(c.Value))
+						}
+					}
+					if call, ok := ins.(ssa.CallInstruction); ok {
+						if cal := call.Common().StaticCallee(); cal != nil && cal.Pkg == f.Pkg {
+							walk(cal)
+						}
+					}
+				}
+			}
+		}
+		walk(f)
+		return bad
+	}
+	var problems []string
+	seen := map[*ssa.Function]bool{}
+	nfun := 0
+	var visit func(f *ssa.Function)
+	visit = func(f *ssa.Function) {
+		if f == nil || seen[f] || len(f.Blocks) == 0 {
+			return
+		}
+		if f.Pkg == nil || !strings.HasPrefix(f.Pkg.Pkg.Path(), repoMod) {
+			return
+		}
+		seen[f] = true
+		nfun++
+		for _, b := range f.Blocks {
+			for _, ins := range b.Instrs {
+				call, ok := ins.(ssa.CallInstruction)
+				if !ok {
+					if mc, ok := ins.(*ssa.MakeClosure); ok {
+						visit(mc.Fn.(*ssa.Function))
+					}
+					continue
+				}
+				c := call.Common()
+				cal := c.StaticCallee()
+				if cal != nil && cal.Signature.Recv() != nil && len(c.Args) > 0 && isDB(c.Args[0]) {
+					switch cal.Name() {
+					case "Exec", "ExecContext", "Begin", "BeginTx", "Prepare", "PrepareContext":
+						problems = append(problems, f.Name()+" calls (*sql.DB)."+cal.Name())
+					}
+				}
+				// a pool handle passed on as a query handle
+				for _, a := range c.Args {
+					if mi, ok := a.(*ssa.MakeInterface); ok && isDB(mi.X) && cal != nil {
+						if bad := writesSQL(cal); bad != "" {
+							problems = append(problems, f.Name()+" passes the pool to "+cal.Name()+" which writes: "+bad)
+						}
+					}
+				}
+				visit(cal)
+			}
+		}
+		for _, an := range f.AnonFuncs {
+			visit(an)
+		}
+	}
+	visit(root)
+	if len(problems) > 0 {
+		sort.Strings(problems)
+		return []Result{{Name: name, Kind: "scan", Fn: root.String(), Status: "sat", Text: "write through the connection pool on the block path: " + strings.Join(problems, "; ")}}
+	}
+	return []Result{{Name: name, Kind: "scan", Fn: root.String(), Status: "ok", Solver: fmt.Sprintf("ssa-scan(%d functions)", nfun)}}
+}
+
+func init() {
+	propScans["C02"] = append(propScans["C02"], scanBlockWritesThroughTx)
 }
